@@ -102,6 +102,8 @@ type Result struct {
 	ReadTs   [][]uint64  `json:"readTs"`
 	NRanges  int         `json:"nranges"`
 	Sends    int         `json:"sends"`
+	// most KVLoader batches a single DB.Load of this case needed
+	LoadBatches int `json:"loadBatches"`
 }
 
 // ---------------------------------------------------------------- layouts
@@ -187,6 +189,9 @@ func (r *krange) contains(key []byte) bool {
 
 // ---------------------------------------------------------------- concretisation
 const expFar = 4102444800 // 2100-01-01
+
+// MemTableSize of the database the backups are loaded into
+var restoreMemTable int64 = 2048
 
 func valOf(k, ts int) []byte {
 	s := fmt.Sprintf("v.%d.%d.", k, ts)
@@ -1193,13 +1198,64 @@ func (w *world) restore(backups [][]byte, res *Result) (mset, map[int]int) {
 	o := vh.SmallOptions(dir)
 	o.ValueThreshold = 64
 	o.NumVersionsToKeep = 100
+	// a tiny memtable makes maxBatchCount / maxBatchSize tiny (0.15 * MemTableSize bytes, / skl.MaxNodeSize
+	// entries), so that the KVLoader needs several batches for a backup of a dozen entries
+	o.MemTableSize = restoreMemTable
 	db, err := badger.Open(o)
 	if err != nil {
 		fatalf("open restore: %v", err)
 	}
 	defer db.Close()
 	for i, b := range backups {
-		if err := db.Load(bytes.NewReader(b), 16); err != nil {
+		// The writer goroutine is held at gate writer.batch (it has taken the first request off
+		// writeCh but not looked at its entries yet) until the loader has queued all its batches:
+		// requests that are still pending must not be affected by what the loader does next.
+		var sends int32
+		w.rec.OnEvent = func(ev vh.Event) {
+			if ev.Point == "send.beforeChan" {
+				atomic.AddInt32(&sends, 1)
+			}
+		}
+		gate := w.rec.Arm("writer.batch", nil)
+		done := make(chan error, 1)
+		go func() { done <- db.Load(bytes.NewReader(b), 16) }()
+		var err error
+		finished := false
+		deadline := time.Now().Add(2 * time.Second)
+		for gate.NumParked() == 0 && time.Now().Before(deadline) {
+			select {
+			case err = <-done:
+				finished = true
+			case <-time.After(200 * time.Microsecond):
+			}
+			if finished {
+				break
+			}
+		}
+		if !finished {
+			last, stable := int32(-1), 0
+			for t0 := time.Now(); time.Since(t0) < 300*time.Millisecond && stable < 4; {
+				time.Sleep(time.Millisecond)
+				if n := atomic.LoadInt32(&sends); n == last {
+					stable++
+				} else {
+					last, stable = n, 0
+				}
+			}
+		}
+		gate.Disarm()
+		if !finished {
+			select {
+			case err = <-done:
+			case <-time.After(30 * time.Second):
+				fatalf("DB.Load did not return within 30s")
+			}
+		}
+		w.rec.OnEvent = nil
+		if n := int(atomic.LoadInt32(&sends)); n > res.LoadBatches {
+			res.LoadBatches = n
+		}
+		if err != nil {
 			res.fail("sm2:backup load-error", fmt.Sprintf("Load of backup %d: %v", i+1, err))
 			return nil, nil
 		}
